@@ -57,7 +57,7 @@ class Schema:
         required nor defaulted, or a user type / object."""
         a = self.resolve(att)
         t = a.get("type", {})
-        if att.get("type", {}).get("ref") or t.get("is_object") or t.get("object"):
+        if att.get("type", {}).get("ref") or t.get("is_object") or t.get("object") or t.get("one_of"):
             return True
         if t.get("prim") and t["prim"] not in ("Bytes", "Any"):
             return name not in self.required(parent) and not att.get("has_default")
@@ -258,7 +258,7 @@ class Built:
         shutil.rmtree(self.workdir, ignore_errors=True)
 
 
-def build_design(seed, index, flags, work, race=False):
+def build_design(seed, index, flags, work, race=False, tags=None, path_prefix=None):
     dj = designs.make_design(seed, index, flags)
     wd = os.path.join(work, "d%d%s" % (index, "".join(f for f in flags if f.endswith("-design"))))
     os.makedirs(wd, exist_ok=True)
@@ -268,7 +268,10 @@ def build_design(seed, index, flags, work, race=False):
         f.write(dj)
     cmd = [designs.GENRUN, "run", "-design", os.path.join(wd, "design.json"), "-out", os.path.join(wd, "out"), "-glue"]
     try:
-        p = subprocess.run(cmd, capture_output=True, text=True, env=goenv(), timeout=180, preexec_fn=designs.limited())
+        genv = goenv()
+        if path_prefix:
+            genv["PATH"] = path_prefix + os.pathsep + genv.get("PATH", "")
+        p = subprocess.run(cmd, capture_output=True, text=True, env=genv, timeout=180, preexec_fn=designs.limited())
         rep = json.loads(p.stdout)
     except Exception as ex:
         b.error = "genrun: %r" % ex
@@ -279,7 +282,7 @@ def build_design(seed, index, flags, work, race=False):
     if rep.get("glue_error") or rep["gen"].get("error") or rep["gen"].get("panic"):
         b.error = "generation: " + str(rep.get("glue_error") or rep["gen"].get("error") or rep["gen"].get("panic"))[:400]
         return b
-    args = ["go", "build"] + (["-race"] if race else []) + ["-o", os.path.join(wd, "e2e"), "./cmd/e2e"]
+    args = ["go", "build"] + (["-race"] if race else []) + (["-tags", tags] if tags else []) + ["-o", os.path.join(wd, "e2e"), "./cmd/e2e"]
     p = subprocess.run(args, cwd=os.path.join(wd, "out"), capture_output=True, text=True, env=goenv())
     if p.returncode != 0:
         b.error = "build: " + (p.stdout + p.stderr)[-800:]
@@ -288,8 +291,8 @@ def build_design(seed, index, flags, work, race=False):
     return b
 
 
-def build_many(seed, indices, flags_fn, work, race=False, workers=12):
-    return designs.parallel(lambda i: build_design(seed, i, flags_fn(i), work, race), indices, workers)
+def build_many(seed, indices, flags_fn, work, race=False, workers=12, tags=None, path_prefix=None):
+    return designs.parallel(lambda i: build_design(seed, i, flags_fn(i), work, race, tags, path_prefix), indices, workers)
 
 
 def rng_for(seed, *keys):
